@@ -124,20 +124,82 @@ theorem run_ok : ∀ (history : List Op) (f0 : Filter), WF f0 →
     exact ⟨f, by rw [run_cons, hg, bind_ok, hf]⟩
 
 /-- size and hash-function count respect the protocol maxima, whatever the float expressions of the
-    constructor evaluate to (PARTIAL: `x`, `y` abstract `math.log` and the float products) -/
-theorem caps (x y : Rat) (nTweak nFlags : Nat) :
-    (create x y nTweak nFlags).vData.length ≤ 36000 ∧ (create x y nTweak nFlags).nHashFuncs ≤ 50 ∧
-      isWithinSizeConstraints (create x y nTweak nFlags) = true := by
-  have h1 := sizeBytes_le x
-  have h2 := hashFuncs_le y
-  have hl : (create x y nTweak nFlags).vData.length = sizeBytes x := by simp [create]
-  have hk : (create x y nTweak nFlags).nHashFuncs = hashFuncs y := rfl
-  refine ⟨by rw [hl]; exact h1, by rw [hk]; exact h2, ?_⟩
+    constructor evaluate to — including when they raise (PARTIAL: `x`, `y` abstract `math.log` and the
+    float products; `y` may depend on the size just built) -/
+theorem caps (x : Res Rat) (y : Nat → Res Rat) (nTweak nFlags : Nat) (f : Filter)
+    (h : create x y nTweak nFlags = .ok f) :
+    f.vData.length ≤ 36000 ∧ f.nHashFuncs ≤ 50 ∧ isWithinSizeConstraints f = true := by
+  rw [create_unfold] at h
+  obtain ⟨xv, _, h⟩ := bind_eq_ok h
+  obtain ⟨n, hn, h⟩ := bind_eq_ok h
+  obtain ⟨yv, _, h⟩ := bind_eq_ok h
+  obtain ⟨k, hk, h⟩ := bind_eq_ok h
+  rw [pure_ok] at h; cases h
+  have h1 := sizeBytes_le xv n hn
+  have h2 := hashFuncs_le yv k hk
+  refine ⟨by simpa using h1, h2, ?_⟩
   unfold isWithinSizeConstraints
-  rw [hl, hk]
   simp only [MAX_BLOOM_FILTER_SIZE, Spec.Bloom.MAX_BLOOM_FILTER_SIZE, MAX_HASH_FUNCS, Spec.Bloom.MAX_HASH_FUNCS,
-    Bool.and_eq_true]
+    Bool.and_eq_true, List.length_replicate]
   exact ⟨decide_eq_true h1, decide_eq_true h2⟩
+
+/-- the filter built is never larger than requested: for non-negative values of the float
+    expressions, `8·|vData| ≤ x` and `nHashFuncs ≤ y(|vData|)` — the caps only ever shrink it -/
+theorem created_le_requested (x : Rat) (hx : 0 ≤ x) (y : Nat → Rat) (hy : ∀ n, 0 ≤ y n) (nTweak nFlags : Nat)
+    (f : Filter) (h : create (.ok x) (fun n => .ok (y n)) nTweak nFlags = .ok f) :
+    ((f.vData.length : Int) : Rat) * 8 ≤ x ∧ ((f.nHashFuncs : Int) : Rat) ≤ y f.vData.length := by
+  rw [create_unfold, bind_ok] at h
+  obtain ⟨n, hn, h⟩ := bind_eq_ok h
+  rw [bind_ok] at h
+  obtain ⟨k, hk, h⟩ := bind_eq_ok h
+  rw [pure_ok] at h; cases h
+  simp only [List.length_replicate]
+  exact ⟨sizeBytes_bits_le x hx n hn, hashFuncs_le_y (y n) (hy n) k hk⟩
+
+/-- the constructor does not fail on the property's domain (non-negative float values) and the
+    exceptions of the float expressions (`math.log` domain error, division by `nElements = 0`) and of
+    `bytearray(negative)` are outcomes of the model, not hidden -/
+theorem create_ok (x : Rat) (hx : 0 ≤ x) (y : Nat → Rat) (hy : ∀ n, 0 ≤ y n) (nTweak nFlags : Nat) :
+    ∃ f, create (.ok x) (fun n => .ok (y n)) nTweak nFlags = .ok f := by
+  have hmin : ∀ (v c : Rat), 0 ≤ v → 0 ≤ c → 0 ≤ min v c := by
+    intro v c h1 h2; rw [Rat.min_def]; split <;> assumption
+  have htr : ∀ v : Rat, 0 ≤ v → ¬ (truncInt v < 0) := by
+    intro v hv
+    unfold truncInt
+    rw [if_pos hv]
+    have := Rat.floor_monotone hv
+    rw [show ((0 : Rat)) = ((0 : Int) : Rat) by rfl, Rat.floor_intCast] at this
+    omega
+  have h8 : 0 ≤ min x ((MAX_BLOOM_FILTER_SIZE * 8 : Nat) : Rat) / 8 := by
+    have := hmin x ((MAX_BLOOM_FILTER_SIZE * 8 : Nat) : Rat) hx
+      (by simp [MAX_BLOOM_FILTER_SIZE, Spec.Bloom.MAX_BLOOM_FILTER_SIZE]; decide)
+    grind
+  have hs : ∃ n, sizeBytes x = .ok n := by
+    unfold sizeBytes; simp only []; rw [if_neg (htr _ h8)]; exact ⟨_, rfl⟩
+  obtain ⟨n, hn⟩ := hs
+  have hk : ∃ k, hashFuncs (y n) = .ok k := by
+    unfold hashFuncs; simp only []
+    rw [if_neg (htr _ (hmin _ _ (hy n) (by simp [MAX_HASH_FUNCS, Spec.Bloom.MAX_HASH_FUNCS]; decide)))]
+    exact ⟨_, rfl⟩
+  obtain ⟨k, hk⟩ := hk
+  exact ⟨_, by rw [create_unfold, bind_ok, hn, bind_ok, bind_ok, hk, bind_ok, pure_ok]⟩
+
+example : create (.error .valueerr) (fun _ => .ok 1) 0 0 = .error .valueerr := rfl
+example : create (.ok 100) (fun _ => .error zeroDivisionError) 0 0 = .error zeroDivisionError := by
+  obtain ⟨f, hf⟩ := create_ok 100 (by grind) (fun _ => 0) (fun _ => by grind) 0 0
+  rw [create_unfold, bind_ok] at hf
+  obtain ⟨n, hn, _⟩ := bind_eq_ok hf
+  rw [create_unfold, bind_ok, hn, bind_ok]
+  rfl
+
+/-- the bits set after any history are *exactly* the initial bits plus the bits the BIP37 schedule
+    selects for the elements inserted in it (serialise/deserialise round trips change nothing) -/
+theorem bits_after_history (history : List Op) (f0 f : Filter) (hlen : f0.vData.length ≤ Model.Wire.MAX_SIZE)
+    (hrun : run f0 history = .ok f) (j : Nat) :
+    Spec.Bloom.bitSet f.vData j ↔ (Spec.Bloom.bitSet f0.vData j ∨
+      ∃ x e, Op.insert x ∈ history ∧ x.toBytes = .ok e ∧ f0.vData ≠ [] ∧
+        j ∈ Spec.Bloom.bitsOf (f0.vData.length * 8) f0.nHashFuncs (UInt32.ofNat f0.nTweak) e) :=
+  bits_after_run history f0 f hlen hrun j
 
 /-- the wire form is lossless: whatever `serialize` emits (it refuses fields outside `'<IIB'`)
     deserialises, from any stream position, to the same data, hash count, tweak and flags, consuming
